@@ -278,8 +278,8 @@ ssc_opcodes = {
     "MODE_SENSE_6": OpCode("MODE_SENSE_6", 0x1A, {}),
     "MODE_SENSE_10": OpCode("MODE_SENSE_10", 0x5A, {}),
     "MOVE_MEDIUM_ATTACHED": OpCode("MOVE_MEDIUM_ATTACHED", 0xA7, {}),
-    "PERSISTENT_RESERVE_IN": OpCode("PERSISTENT_RESERVE_IN", 0x5E, {}),
-    "PERSISTENT_RESERVE_OUT": OpCode("PERSISTENT_RESERVE_OUT", 0x5F, {}),
+    "PERSISTENT_RESERVE_IN": OpCode("PERSISTENT_RESERVE_IN", 0x5E, sa_persistent_reserve_in),
+    "PERSISTENT_RESERVE_OUT": OpCode("PERSISTENT_RESERVE_OUT", 0x5F, sa_persistent_reserve_out),
     "PREVENT_ALLOW_MEDIUM_REMOVAL": OpCode("PREVENT_ALLOW_MEDIUM_REMOVAL", 0x1E, {}),
     "READ_6": OpCode("READ_6", 0x08, {}),
     "READ_16": OpCode("READ_16", 0x88, {}),
@@ -341,8 +341,8 @@ smc_opcodes = {
     "MODE_SENSE_10": OpCode("MODE_SENSE_10", 0x5A, {}),
     "MOVE_MEDIUM": OpCode("MOVE_MEDIUM", 0xA5, {}),
     "OPEN_CLOSE_IMPORT_EXPORT_ELEMENT": OpCode("SMC_OPCODE_1B", 0x1B, service_actions),
-    "PERSISTENT_RESERVE_IN": OpCode("PERSISTENT_RESERVE_IN", 0x5E, {}),
-    "PERSISTENT_RESERVE_OUT": OpCode("PERSISTENT_RESERVE_OUT", 0x5F, {}),
+    "PERSISTENT_RESERVE_IN": OpCode("PERSISTENT_RESERVE_IN", 0x5E, sa_persistent_reserve_in),
+    "PERSISTENT_RESERVE_OUT": OpCode("PERSISTENT_RESERVE_OUT", 0x5F, sa_persistent_reserve_out),
     "PREVENT_ALLOW_MEDIUM_REMOVAL": OpCode("PREVENT_ALLOW_MEDIUM_REMOVAL", 0x1E, {}),
     "POSITION_TO_ELEMENT": OpCode("POSITION_TO_ELEMENT", 0x2B, {}),
     "READ_ATTRIBUTE": OpCode("READ_ATTRIBUTE", 0x8C, {}),
